@@ -25,7 +25,8 @@ type constPat struct {
 	name string
 	fn   string         // enclosing function ("" = file level)
 	re   *regexp.Regexp // matched against the printed source of expression / case-list / spec nodes
-	idx  int            // which match in source order (0 = first): case values and repeated tests are identified by position
+	idx  int            // which match in source order (0 = first)
+	body *regexp.Regexp // for case clauses / tests inside a case: the printed clause body must match (robust against reordering)
 }
 
 func src(fset *token.FileSet, n ast.Node) string {
@@ -48,14 +49,36 @@ func extract(path string, pats []constPat) (map[string]int64, error) {
 	}
 	out := map[string]int64{}
 	hits := map[string]int{}
-	try := func(fn string, n ast.Node) {
+	named := map[string]int64{} // const name = literal, anywhere in the file
+	ast.Inspect(f, func(n ast.Node) bool {
+		if vs, ok := n.(*ast.ValueSpec); ok {
+			for i, id := range vs.Names {
+				if i < len(vs.Values) {
+					if bl, ok := vs.Values[i].(*ast.BasicLit); ok {
+						if v, ok := num(bl.Value); ok {
+							named[id.Name] = v
+						}
+					}
+				}
+			}
+		}
+		return true
+	})
+	match := func(fn string, n ast.Node, body string, withBody bool) {
 		s := src(fset, n)
 		for _, p := range pats {
-			if p.fn != fn {
+			if p.fn != fn || (p.body != nil) != withBody {
+				continue
+			}
+			if withBody && !p.body.MatchString(body) {
 				continue
 			}
 			if m := p.re.FindStringSubmatch(s); m != nil {
-				if v, ok := num(m[1]); ok {
+				v, ok := num(m[1])
+				if !ok {
+					v, ok = named[m[1]]
+				}
+				if ok {
 					if hits[p.name] == p.idx {
 						out[p.name] = v
 					}
@@ -64,6 +87,8 @@ func extract(path string, pats []constPat) (map[string]int64, error) {
 			}
 		}
 	}
+	try := func(fn string, n ast.Node) { match(fn, n, "", false) }
+	tryBody := func(fn string, n ast.Node, body string) { match(fn, n, body, true) }
 	for _, d := range f.Decls {
 		switch d := d.(type) {
 		case *ast.GenDecl:
@@ -84,8 +109,18 @@ func extract(path string, pats []constPat) (map[string]int64, error) {
 						try(name, n.Tag)
 					}
 				case *ast.CaseClause:
+					// a case value is identified by what its body does; tests inside the body inherit that identity
+					b := src(fset, &ast.BlockStmt{List: n.Body})
 					for _, e := range n.List {
-						try(name, &ast.ExprStmt{X: &ast.CallExpr{Fun: ast.NewIdent("case"), Args: []ast.Expr{e}}})
+						tryBody(name, &ast.ExprStmt{X: &ast.CallExpr{Fun: ast.NewIdent("case"), Args: []ast.Expr{e}}}, b)
+					}
+					for _, st := range n.Body {
+						ast.Inspect(st, func(m ast.Node) bool {
+							if be, ok := m.(*ast.BinaryExpr); ok {
+								tryBody(name, be, b)
+							}
+							return true
+						})
 					}
 				}
 				return true
@@ -97,7 +132,8 @@ func extract(path string, pats []constPat) (map[string]int64, error) {
 
 func re(s string) *regexp.Regexp { return regexp.MustCompile(s) }
 
-const lit = `(0[xX][0-9a-fA-F]+|\d+)`
+// a literal, or the name of a constant declared in the same file (resolved through the file's const declarations)
+const lit = `(0[xX][0-9a-fA-F]+|\d+|[A-Za-z_]\w*)`
 
 func genConsts(r *lib.Run) {
 	repo := os.Getenv("VERIF_REPO")
@@ -109,38 +145,38 @@ func genConsts(r *lib.Run) {
 		pats []constPat
 	}{
 		{"layer_dns.go", []constPat{
-			{"maxRecursionLevel", "", re(`^maxRecursionLevel = ` + lit + `$`), 0},
-			{"name.window", "decodeName", re(`^index2-offset > ` + lit + `$`), 0},
-			{"name.topmask", "decodeName", re(`^data\[index\] & ` + lit + `$`), 0},
-			{"name.case.pointer", "decodeName", re(`^case\(` + lit + `\)$`), 0},
-			{"name.case.reserved40", "decodeName", re(`^case\(` + lit + `\)$`), 1},
-			{"name.case.reserved80", "decodeName", re(`^case\(` + lit + `\)$`), 2},
-			{"name.ptrmask", "decodeName", re(`^binary\.BigEndian\.Uint16\(data\[index:index\+2\]\) & ` + lit + `$`), 0},
-			{"header.min", "IsValid", re(`^len\(p\) >= ` + lit + `$`), 0},
-			{"question.count", "DecodeQuestion", re(`^p\.QDCount\(\) != ` + lit + `$`), 0},
-			{"question.min", "DecodeQuestion", re(`^index\+` + lit + ` > len\(p\)$`), 0},
-			{"question.tail", "DecodeQuestion", re(`^endq\+` + lit + ` > len\(p\)$`), 0},
-			{"rr.header", "decodeRRs", re(`^endq\+` + lit + ` > len\(p\)$`), 0},
-			{"rr.type.A", "decodeRRs", re(`^case\(` + lit + `\)$`), 0},
-			{"rr.type.AAAA", "decodeRRs", re(`^case\(` + lit + `\)$`), 1},
-			{"rr.type.CNAME", "decodeRRs", re(`^case\(` + lit + `\)$`), 2},
-			{"rr.type.MX", "decodeRRs", re(`^case\(` + lit + `\)$`), 3},
-			{"rr.type.PTR", "decodeRRs", re(`^case\(` + lit + `\)$`), 4},
-			{"rr.len.A", "decodeRRs", re(`^dataLen != ` + lit + `$`), 0},
-			{"rr.len.AAAA", "decodeRRs", re(`^dataLen != ` + lit + `$`), 1},
+			{"maxRecursionLevel", "", re(`^maxRecursionLevel = ` + lit + `$`), 0, nil},
+			{"name.window", "decodeName", re(`^index2-offset > ` + lit + `$`), 0, nil},
+			{"name.topmask", "decodeName", re(`^data\[index\] & ` + lit + `$`), 0, nil},
+			{"name.case.pointer", "decodeName", re(`^case\(` + lit + `\)$`), 0, re(`decodeName\(`)},
+			{"name.case.reserved40", "decodeName", re(`^case\(` + lit + `\)$`), 0, re(`0x40`)},
+			{"name.case.reserved80", "decodeName", re(`^case\(` + lit + `\)$`), 0, re(`0x80`)},
+			{"name.ptrmask", "decodeName", re(`^binary\.BigEndian\.Uint16\(data\[index:index\+2\]\) & ` + lit + `$`), 0, nil},
+			{"header.min", "IsValid", re(`^len\(p\) >= ` + lit + `$`), 0, nil},
+			{"question.count", "DecodeQuestion", re(`^p\.QDCount\(\) != ` + lit + `$`), 0, nil},
+			{"question.min", "DecodeQuestion", re(`^index\+` + lit + ` > len\(p\)$`), 0, nil},
+			{"question.tail", "DecodeQuestion", re(`^endq\+` + lit + ` > len\(p\)$`), 0, nil},
+			{"rr.header", "decodeRRs", re(`^endq\+` + lit + ` > len\(p\)$`), 0, nil},
+			{"rr.type.A", "decodeRRs", re(`^case\(` + lit + `\)$`), 0, re(`IP4Records`)},
+			{"rr.type.AAAA", "decodeRRs", re(`^case\(` + lit + `\)$`), 0, re(`IP6Records`)},
+			{"rr.type.CNAME", "decodeRRs", re(`^case\(` + lit + `\)$`), 0, re(`CNameRecords`)},
+			{"rr.type.MX", "decodeRRs", re(`^case\(` + lit + `\)$`), 0, re(`MX record`)},
+			{"rr.type.PTR", "decodeRRs", re(`^case\(` + lit + `\)$`), 0, re(`PTRRecords`)},
+			{"rr.len.A", "decodeRRs", re(`^dataLen != ` + lit + `$`), 0, re(`IP4Records`)},
+			{"rr.len.AAAA", "decodeRRs", re(`^dataLen != ` + lit + `$`), 0, re(`IP6Records`)},
 		}},
 		{"handlers/dns_naming/dns.go", []constPat{
-			{"processdns.index", "ProcessDNS", re(`^index := ` + lit + `$`), 0},
-			{"processdns.buffer", "ProcessDNS", re(`^make\(\[\]byte, 0, ` + lit + `\)$`), 0},
+			{"processdns.index", "ProcessDNS", re(`^index := ` + lit + `$`), 0, nil},
+			{"processdns.buffer", "ProcessDNS", re(`^make\(\[\]byte, 0, ` + lit + `\)$`), 0, nil},
 		}},
 		{"handlers/dns_naming/nbns.go", []constPat{
-			{"nbns.entry", "parseNodeNameArray", re(`^len\(b\) < n\*` + lit + `$`), 0},
-			{"nbns.name", "", re(`^netbiosMaxNameLen = ` + lit + `$`), 0},
-			{"nbns.groupflag", "parseNodeNameArray", re(`^flags & ` + lit + `$`), 0},
-			{"nbns.encoded.label", "decodeNBNSName", re(`^buf\[0\] != ` + lit + `$`), 0},
+			{"nbns.entry", "parseNodeNameArray", re(`^len\(b\) < n\*` + lit + `$`), 0, nil},
+			{"nbns.name", "", re(`^netbiosMaxNameLen = ` + lit + `$`), 0, nil},
+			{"nbns.groupflag", "parseNodeNameArray", re(`^flags & ` + lit + `$`), 0, nil},
+			{"nbns.encoded.label", "decodeNBNSName", re(`^buf\[0\] != ` + lit + `$`), 0, nil},
 		}},
 		{"handlers/dns_naming/mdns.go", []constPat{
-			{"mdns.cache.minutes", "putMDNSCache", re(`^time\.Minute \* ` + lit + `$`), 0},
+			{"mdns.cache.minutes", "putMDNSCache", re(`^time\.Minute \* ` + lit + `$`), 0, nil},
 		}},
 	}
 	for _, f := range files {
